@@ -244,8 +244,17 @@ class G:
             if k == "defaultdict":
                 # the factory is rendered from the value type: keep it callable
                 t, v, _ = r.choice([("int", "1", 1), ("str", "'s'", 1), ("List[int]", "[1]", 0), ("Dict[str, int]", "{'a': 1}", 0),
-                                    ("float", "1.5", 1), ("list", "[]", 0)])
-                return f"DefaultDict[{kt}, {t}]", f"collections.defaultdict({'list' if 'ist' in t else 'dict' if 'ict' in t else t}, {{{kv}: {v}}})", False
+                                    ("float", "1.5", 1), ("list", "[]", 0),
+                                    ("types.MappingProxyType[str, int]", "types.MappingProxyType({'a': 1})", 0), ("ENUMCLS", "", 0), ("ENUMCLS", "", 0)])
+                if t == "ENUMCLS":
+                    # the factory is the rendered name of a schema class: it must denote that class (module scope only:
+                    # a local class as factory is the known finding defaultdict-factory-local-class, kept in the identity family)
+                    if self.defloc == "module":
+                        t, v, _ = self.enum_cls()
+                        return f"DefaultDict[{kt}, {t}]", f"collections.defaultdict(lambda: {v}, {{{kv}: {v}}})", False
+                    t, v = "int", "1"
+                fac = "list" if t.startswith(("List", "list")) else "dict" if t.startswith(("Dict", "types.")) else t
+                return f"DefaultDict[{kt}, {t}]", f"collections.defaultdict({fac}, {{{kv}: {v}}})", False
             if k == "OrderedDict":
                 return f"OrderedDict[{kt}, {t}]", f"collections.OrderedDict({{{kv}: {v}}})", False
             if k == "MappingProxyType":
